@@ -567,7 +567,8 @@ class X12LoopDataNode(X12DataNode):
         """
         ret = X12LoopDataNode(self.x12_map_node)
         ret.end_loops = list(self.end_loops)
-        ret.parent = self.parent
+        # the copy stands on its own: a path that climbs out of it must not reach, or change, the original tree
+        ret.parent = None
         for child in self.children:
             if child.type is None:
                 continue  # deleted node waiting for cleanup
@@ -750,9 +751,11 @@ class X12SegmentDataNode(X12DataNode):
         Returns a copy of this node
         """
         seg_data = self.seg_data.copy()
-        ret = X12SegmentDataNode(self.x12_map_node, seg_data, self.parent)
+        ret = X12SegmentDataNode(self.x12_map_node, seg_data, None)
         ret.start_loops = list(self.start_loops)
         ret.end_loops = list(self.end_loops)
+        ret.seg_count = self.seg_count
+        ret.cur_line_number = self.cur_line_number
         return ret
 
     def select(self, x12_path_str):
